@@ -3,6 +3,7 @@ import DendroModel.Theory.C10Bits
 import DendroModel.Theory.C10More
 import DendroModel.Theory.C10Ext
 import DendroModel.Theory.C10Esc
+import DendroModel.Theory.C10Text
 /-! C10 — property theorems about the namespace state machine `DendroModel.C10.step` (the definitions the driver
 `drv_c10` runs).  `Aux.WInv w` is the invariant of a world: every namespace satisfies `Aux.Inv` (member list
 duplicate-free; members = keys of the taxon→index map; every index below the counter; the two index maps inverse
@@ -420,6 +421,127 @@ theorem newick_names_exactly (s : NS) (hi : Inv s) (lab : Nat → String) (S : L
   · apply inj; rw [← h'.1]; simp [Function.comp_def]
   · apply inj; rw [← h'.2]; simp [Function.comp_def]
 
+/-! ### the printed string determines the groups -/
+
+/-- the printed two-group rendering determines its token lists: two renderings built from well-formed tokens (the tokens
+of non-empty labels, `Tok`: quoted with doubled inner quotes, or a non-empty run without quote, comma and closing
+parenthesis) are the same string only if the groups are the same token lists.  (Proved through a local tokenizer,
+`lexTok`, that reads back exactly the token that was printed.) -/
+theorem text_determines_tokens (l r l' r' : List String) (hl : ∀ t ∈ l, Tok t.toList) (hr : ∀ t ∈ r, Tok t.toList)
+    (hl' : ∀ t ∈ l', Tok t.toList) (hr' : ∀ t ∈ r', Tok t.toList)
+    (h : Rendering.text (.sides l r) = Rendering.text (.sides l' r')) : l = l' ∧ r = r' := by
+  have h' := congrArg String.toList h
+  rw [text_toList, text_toList] at h'
+  have lift : ∀ (x : List String), (∀ t ∈ x, Tok t.toList) → ∀ t ∈ x.map String.toList, Tok t := by
+    intro x hx t ht
+    obtain ⟨y, hy, rfl⟩ := List.mem_map.1 ht
+    exact hx y hy
+  obtain ⟨e1, e2⟩ := sidesText_inj _ _ _ _ (lift l hl) (lift r hr) (lift l' hl') (lift r' hr') h'
+  have inj : ∀ (a b : List String), a.map String.toList = b.map String.toList → a = b := by
+    intro a
+    induction a with
+    | nil => intro b h; cases b with
+      | nil => rfl
+      | cons _ _ => simp at h
+    | cons x xs ih =>
+      intro b h
+      cases b with
+      | nil => simp at h
+      | cons y ys =>
+        simp only [List.map_cons, List.cons.injEq] at h
+        rw [String.toList_inj.1 h.1, ih ys h.2]
+  exact ⟨inj _ _ e1, inj _ _ e2⟩
+
+/-- the same for the flat rendering of the two trivial masks (separator `,`) -/
+theorem text_determines_tokens_flat (l l' : List String) (hl : ∀ t ∈ l, Tok t.toList) (hl' : ∀ t ∈ l', Tok t.toList)
+    (h : Rendering.text (.flat l) = Rendering.text (.flat l')) : l = l' := by
+  have h' := congrArg String.toList h
+  simp only [Rendering.text, String.toList_append, String.toList_intercalate, intercalate_eq] at h'
+  have h2 : renderItems [','] (l.map String.toList) ++ ')' :: [';'] = renderItems [','] (l'.map String.toList) ++ ')' :: [';'] := by
+    simpa using h'
+  have lift : ∀ (x : List String), (∀ t ∈ x, Tok t.toList) → ∀ t ∈ x.map String.toList, Tok t := by
+    intro x hx t ht
+    obtain ⟨y, hy, rfl⟩ := List.mem_map.1 ht
+    exact hx y hy
+  obtain ⟨e1, _⟩ := renderItems_inj [] _ _ _ _ (lift l hl) (lift l' hl') h2
+  have inj : ∀ (a b : List String), a.map String.toList = b.map String.toList → a = b := by
+    intro a
+    induction a with
+    | nil => intro b h; cases b with
+      | nil => rfl
+      | cons _ _ => simp at h
+    | cons x xs ih =>
+      intro b h
+      cases b with
+      | nil => simp at h
+      | cons y ys =>
+        simp only [List.map_cons, List.cons.injEq] at h
+        rw [String.toList_inj.1 h.1, ih ys h.2]
+  exact inj _ _ e1
+
+/-- the token of a non-empty label is well-formed -/
+theorem token_wellformed (ps qu : Bool) (l : String) (hne : l ≠ "") : Tok (escapeToken ps qu l).toList := by
+  rw [escapeToken_eq, String.toList_ofList]
+  exact escL_tok ps qu _ (toList_ne_nil hne)
+
+/-- text level: with `preserve_spaces` or `quote_underscores`, for non-empty labels, the *string* the operation returns
+for the mask of a member list `S` names exactly the taxa of `S` — the only non-empty label lists `L`, `R` whose
+rendering is that string are the labels of the members in `S` and of the other members (in membership order) -/
+theorem nwk_text_names_exactly (w : World) (hw : WInv w) (n : Nat) (s : NS) (hs : w.nss[n]? = some s) (S : List Nat)
+    (hS : ∀ t ∈ S, t ∈ s.taxa) (m : Nat) (hm : (s.taxaBitmask S 0).2 = .ok m) (ps qu : Bool) (hpq : ps = true ∨ qu = true)
+    (hne : ¬ (m = 0 ∨ m = s.allMask)) (hlab : ∀ t ∈ s.taxa, w.lab t ≠ "") (L R : List String)
+    (hL : ∀ x ∈ L, x ≠ "") (hR : ∀ x ∈ R, x ≠ "")
+    (h : (step w (.nwk n m ps qu)).2 =
+      .str (Rendering.text (.sides (L.map (escapeToken ps qu)) (R.map (escapeToken ps qu))))) :
+    L = (s.taxa.filter (fun t => S.contains t)).map w.lab ∧ R = (s.taxa.filter (fun t => !S.contains t)).map w.lab := by
+  have hi := hw.ns s (List.mem_of_getElem? hs)
+  have key := newick_spec s hi w.lab S hS m hm ps qu
+  rw [if_neg hne] at key
+  have hstep : (step w (.nwk n m ps qu)).2 = .str (Rendering.text (.sides
+      ((s.taxa.filter (fun t => S.contains t)).map (fun t => escapeToken ps qu (w.lab t)))
+      ((s.taxa.filter (fun t => !S.contains t)).map (fun t => escapeToken ps qu (w.lab t))))) := by
+    rw [step_ns (n := n) rfl rfl, hs]
+    simp only [stepNs]
+    rcases hn : s.newick w.lab m ps qu with ⟨s', r⟩
+    rw [hn] at key; simp only at key; subst key
+    simp [exceptOut]
+  rw [hstep] at h
+  have htxt := Out.str.inj h
+  have tokmap : ∀ (X : List String), (∀ x ∈ X, x ≠ "") → ∀ t ∈ X.map (escapeToken ps qu), Tok t.toList := by
+    intro X hX t ht
+    obtain ⟨x, hx, rfl⟩ := List.mem_map.1 ht
+    exact token_wellformed ps qu x (hX x hx)
+  have tokmem : ∀ (p : Nat → Bool), ∀ t ∈ (s.taxa.filter p).map (fun t => escapeToken ps qu (w.lab t)), Tok t.toList := by
+    intro p t ht
+    obtain ⟨x, hx, rfl⟩ := List.mem_map.1 ht
+    exact token_wellformed ps qu _ (hlab x (List.mem_filter.1 hx).1)
+  obtain ⟨e1, e2⟩ := text_determines_tokens _ _ _ _ (tokmem _) (tokmem _) (tokmap L hL) (tokmap R hR) htxt
+  have inj : ∀ (l1 l2 : List String), l1.map (escapeToken ps qu) = l2.map (escapeToken ps qu) → l1 = l2 := by
+    intro l1
+    induction l1 with
+    | nil => intro l2 h; cases l2 with
+      | nil => rfl
+      | cons _ _ => simp at h
+    | cons x xs ih =>
+      intro l2 h
+      cases l2 with
+      | nil => simp at h
+      | cons y ys =>
+        simp only [List.map_cons, List.cons.injEq] at h
+        rw [token_injective ps qu hpq x y h.1, ih ys h.2]
+  constructor
+  · apply inj; rw [← e1]; simp [Function.comp_def]
+  · apply inj; rw [← e2]; simp [Function.comp_def]
+
+/-- non-vacuity at the level below the string parser: the tokens of `B` and of `x'y, z` are well-formed, and a state the
+driver produces satisfies the hypotheses (A,B,C,D with A removed; mask of B; non-empty labels) -/
+example : Tok ['B'] ∧ Tok ('\'' :: (['x', '\'', 'y', ',', ' ', 'z'].flatMap dbl ++ ['\''])) :=
+  ⟨.bare _ (by simp) (by decide), .quoted _⟩
+example : ∃ s, (exec World.init [.mkns false [.lab "A", .lab "B", .lab "C", .lab "D"], .rm 0 0]).nss[0]? = some s ∧
+    (∀ t ∈ [1], t ∈ s.taxa) ∧ ¬ ((2 : Nat) = 0 ∨ 2 = s.allMask) ∧
+    ∀ t ∈ s.taxa, (exec World.init [.mkns false [.lab "A", .lab "B", .lab "C", .lab "D"], .rm 0 0]).lab t ≠ "" :=
+  ⟨_, rfl, by decide, by decide, by decide⟩
+
 /-- `bitmask_as_bitstring`: read from the right, character `i` is `'1'` exactly when bit `i` of the mask is set (so,
 by `mask_roundtrip`, exactly at the bits of the taxa the mask was built from); the string is at least as long as the
 accession counter, so every member has a position -/
@@ -446,6 +568,36 @@ produce, through the driver op `lower` — labels outside that repertoire are ou
 theorem labelMatches_iff (lab : Nat → String) (cs : Bool) (l : String) (t : Nat) :
     labelMatches lab cs l t = true ↔ (if cs = true then l = lab t else pyLower l = pyLower (lab t)) := by
   unfold labelMatches; cases cs <;> simp
+
+/-! ### the scope of case-insensitive matching -/
+
+/-- what the model's case folding is, made explicit.  On ASCII/Latin-1 characters it is the table `A`–`Z`, `À`–`Þ`
+(without `×`) ↦ +32; on every other character it is the identity; it is idempotent (so "same lower-cased form" is an
+equivalence on labels).  Labels are strings (`None` labels do not exist in the model), and the agreement with CPython's
+`str.lower` is claimed — and tested on every generated label — for `InScope` labels only. -/
+theorem case_folding_scope :
+    (∀ n : Fin 256, lowerChar (Char.ofNat n) =
+      Char.ofNat (if (65 ≤ n.val ∧ n.val ≤ 90) ∨ (192 ≤ n.val ∧ n.val ≤ 222 ∧ n.val ≠ 215) then n.val + 32 else n.val)) ∧
+    (∀ c : Char, 256 ≤ c.toNat → lowerChar c = c) ∧
+    (∀ l : String, pyLower (pyLower l) = pyLower l) ∧
+    (∀ l : String, (pyLower l).toList = l.toList.map lowerChar) :=
+  ⟨lowerChar_latin1, lowerChar_out_of_scope, pyLower_idem, pyLower_toList⟩
+
+/-- outside that scope the model does no folding at all: for labels and queries made of non-Latin-1 characters only, a
+case-insensitive lookup is the case-sensitive one (CPython folds e.g. `Σ`; such labels are outside the correspondence) -/
+theorem out_of_scope_lookup (lab : Nat → String) (l : String) (t : Nat) (hl : ∀ c ∈ l.toList, 256 ≤ c.toNat)
+    (ht : ∀ c ∈ (lab t).toList, 256 ≤ c.toNat) : labelMatches lab false l t = labelMatches lab true l t := by
+  simp [labelMatches, pyLower_out_of_scope l hl, pyLower_out_of_scope (lab t) ht]
+
+/-- in scope, a case-insensitive match is exactly equality of the character-wise folded labels -/
+theorem in_scope_match (lab : Nat → String) (l : String) (t : Nat) :
+    labelMatches lab false l t = true ↔ l.toList.map lowerChar = (lab t).toList.map lowerChar := by
+  rw [labelMatches_iff]
+  simp only [Bool.false_eq_true, if_false]
+  rw [← String.toList_inj, pyLower_toList, pyLower_toList]
+
+example : InScope "Éa×" ∧ pyLower "ÉA×" = "éa×" ∧ pyLower "Σ" = "Σ" := by
+  refine ⟨by unfold InScope; decide, by decide, by decide⟩
 
 /-- `get_taxa`: with `first_match_only`, the first match of each label that has one, in label order (repeats kept);
 otherwise every member matching some label, each once, ordered by first matching label and then by membership -/
@@ -547,6 +699,34 @@ theorem remove_label_spec (w : World) (hw : WInv w) (n : Nat) (s : NS) (hs : w.n
     | cons x xs =>
       rw [hf] at hra
       simp [stepNs, hl, hf, hra]
+
+/-- `remove_taxon_label` / `discard_taxon_label` with `first_match_only=True`.  Without a match: `LookupError`
+resp. nothing, and no change.  With a match the code as it is (`fixed = false`) refuses with `TypeError` and changes
+nothing; the documented behaviour (`fixed = true`) is exactly `remove_taxon` of the first match in membership order —
+so by `rm_spec` only that taxon leaves and every other member keeps its position and bit. -/
+theorem remove_first_spec (w : World) (n : Nat) (s : NS) (hs : w.nss[n]? = some s) (c : Option Bool) (l : String)
+    (fixed : Bool) :
+    (s.taxa.find? (labelMatches w.lab (s.effCs c) l) = none →
+      step w (.rmlf n c l fixed) = (w, .err .lookupError) ∧ step w (.dlf n c l fixed) = (w, .ok)) ∧
+    (∀ t, s.taxa.find? (labelMatches w.lab (s.effCs c) l) = some t →
+      step w (.rmlf n c l false) = (w, .err .typeError) ∧ step w (.dlf n c l false) = (w, .err .typeError) ∧
+      step w (.rmlf n c l true) = step w (.rm n t) ∧ step w (.dlf n c l true) = step w (.rm n t)) := by
+  have hl := (lookup_spec s w.lab c l).2
+  constructor
+  · intro h
+    constructor <;> (rw [step_ns (n := n) rfl rfl, hs]; simp [stepNs, hl, h])
+  · intro t h
+    refine ⟨?_, ?_, ?_, ?_⟩
+    · rw [step_ns (n := n) rfl rfl, hs]; simp [stepNs, hl, h]
+    · rw [step_ns (n := n) rfl rfl, hs]; simp [stepNs, hl, h]
+    · rw [step_ns (n := n) rfl rfl, hs, step_ns (n := n) rfl rfl, hs]; simp [stepNs, hl, h]
+    · rw [step_ns (n := n) rfl rfl, hs, step_ns (n := n) rfl rfl, hs]; simp [stepNs, hl, h]
+
+/-- both outcomes on a state the driver produces (members a, B, A; label "A", case-insensitive: first match is `a`) -/
+example : (step (exec World.init [.mkns false [.lab "a", .lab "B", .lab "A"]]) (.dlf 0 none "A" false)).2 matches .err .typeError := by
+  decide
+example : (step (exec World.init [.mkns false [.lab "a", .lab "B", .lab "A"]]) (.dlf 0 none "A" true)).1.nss.map (·.taxa) = [[1, 2]] := by
+  decide
 
 /-- `findall` / `get_taxon` / `has_taxon_label` as operations: that answer, and no change of the world -/
 theorem lookup_ops_spec (w : World) (n : Nat) (s : NS) (hs : w.nss[n]? = some s) (c : Option Bool) (l : String) :
